@@ -7,6 +7,9 @@
 //          n never, h half an answer and then nothing, H the whole head and most of the body and then nothing, l late (time-out + 300 ms), e delayed 250 ms, g delayed 70% of the time-out (used in wave 2 to be in flight when a late response arrives)
 //          X closes the connection without answering,  T answers at the very moment the request's own time-out expires
 //          (+-1 ms: the response and the timer event reach the client in the same batch of events)
+//          U answers, then 60 ms later sends a complete 408 response nobody asked for and keeps the connection open;  P the same with
+//          half a response;  S with two stray bytes;  W sends the unsolicited 408 and closes (what pistache's own server does with an
+//          idle connection);  D answers with a head whose Date header is invalid and sends the body 40 ms later
 //        a behaviour may carry its own time-out: <b>@<ms> (0 = none)
 //        wave 2 is issued <gap ms> (default time-out + 100 ms) after wave 1
 //   L <client threads> <rounds>     one connection per host; per round request A (answered at once) and, 0-300 us later,
@@ -156,6 +159,29 @@ struct Server
             case 'X':
                 ::shutdown(c, SHUT_RDWR);
                 return;
+            case 'U':
+            case 'P':
+            case 'S':
+            case 'W':
+            {
+                pv::send_all(c, plain);
+                nap(60);
+                const std::string stale = "HTTP/1.1 408 Request Timeout\r\nSet-Cookie: stale=1\r\nContent-Length: 5\r\n\r\nstale";
+                pv::send_all(c, b == 'P' ? std::string("HTTP/1.1 503 Service Unavailable\r\nX-Stale: 1\r\nConte") : b == 'S' ? std::string("xy") : stale);
+                if (b == 'W')
+                {
+                    ::shutdown(c, SHUT_RDWR);
+                    return;
+                }
+                break;
+            }
+            case 'D':
+            {
+                pv::send_all(c, "HTTP/1.1 200 OK\r\nDate: nonsense\r\nX-Id: " + id + "\r\nContent-Length: " + std::to_string(body.size()) + "\r\n\r\n");
+                nap(40);
+                pv::send_all(c, body);
+                break;
+            }
             case 'T':
             {
                 // aim at the expiry of the client's timer, which was armed just before the request was sent
